@@ -49,6 +49,32 @@ status storage::create_storage(std::string_view storage_name) { // NOLINT
 }
 
 status storage::delete_storage(std::string_view storage_name) { // NOLINT
+    /**
+     * Deletions are serialized. The tree that is destroyed below is looked up before the
+     * entry is removed; a concurrent delete_storage + create_storage of the same name in
+     * between would make this call remove the new entry but destroy (again) the old tree,
+     * leaking the new one.
+     */
+    struct delete_guard {
+        delete_guard() {
+            for (;;) {
+                bool expected{false};
+                if (delete_lock_.compare_exchange_weak(expected, true,
+                                                       std::memory_order_acq_rel,
+                                                       std::memory_order_acquire)) {
+                    break;
+                }
+                _mm_pause();
+            }
+        }
+        ~delete_guard() {
+            delete_lock_.store(false, std::memory_order_release);
+        }
+        delete_guard(const delete_guard&) = delete;
+        delete_guard& operator=(const delete_guard&) = delete;
+        delete_guard(delete_guard&&) = delete;
+        delete_guard& operator=(delete_guard&&) = delete;
+    } guard;
     Token token{};
     while (status::OK != enter(token)) { _mm_pause(); }
     // search storage
